@@ -123,6 +123,7 @@ def run(ctx, rep):
     rep.floor('free_clusters call sites', n, 6)
     stale_entry_rule(f, P, rep)
     abandoned_run_rule(f, P, rep, 'C03.9')
+    release_once_rule(f, P, rep, 'C03.10')
     # C03.6: a mapping is installed / removed on a decision read under the same slice write guard
     from ..critsec import check_then_act
     rep.rule('C03.6', 'mappings are installed and removed on a decision read through the slice write guard the mutation happens under '
@@ -414,3 +415,63 @@ def _mentions_locals(b, defs, args, want, depth=4):
                 if o['k'] in ('copy', 'move'):
                     work.append(o['pl']['l'])
     return False
+
+
+def release_once_rule(f, P, rep, rid):
+    """The allocation an L2 entry held before it is replaced is released exactly once.  An installer that passes the
+    displaced allocation (map_cluster's result) on to free_clusters has released it; a caller that awaits such an installer
+    and then releases the old entry's allocation() itself decrements the same clusters a second time: a host cluster
+    shared by two compressed guest clusters drops to refcount 0 while the other one still references it."""
+    from ..guard import Deps
+    rep.rule(rid, 'a function that awaits an installer which already releases the displaced allocation (map_cluster result -> '
+                  'free_clusters) does not release the allocation() of the old entry again on a path that follows the installer')
+    releasers = set()
+    n_maps = 0
+    bodies = [b for b in f.body_list if '::tests::' not in b.path and b.path.startswith('dev::')]
+    for b in bodies:
+        calls = list(b.calls())
+        n_maps += sum(1 for _bi, t in calls if (t.get('fn') or '').endswith('::map_cluster'))
+        frees = [(bi, t) for bi, t in calls if (t.get('fn') or '').endswith('::free_clusters')]
+        if not frees or not any((t.get('fn') or '').endswith('::map_cluster') for _bi, t in calls):
+            continue
+        dp = Deps(P, b)
+        for bi, t in frees:
+            d = set()
+            for a in t['args'][1:]:
+                d |= dp.of_operand(a, (bi, 10 ** 6))
+            if any(x[0] == 'fn' and x[1].endswith('::map_cluster') for x in d):
+                releasers.add(b.path.rsplit('::{closure', 1)[0])
+    rep.floor('map_cluster call sites', n_maps, 2)
+    rep.count('installers that release the displaced allocation themselves', len(releasers))
+    for b in bodies:
+        calls = list(b.calls())
+        inst = [(bi, t) for bi, t in calls if (t.get('fn') or '') in releasers]
+        frees = [(bi, t) for bi, t in calls if (t.get('fn') or '').endswith('::free_clusters')]
+        if not inst or not frees:
+            continue
+        dp = Deps(P, b)
+        succ = b.succ()
+        for ibi, it in inst:
+            seen, st = set(), list(succ[ibi])
+            while st:
+                x = st.pop()
+                if x not in seen:
+                    seen.add(x)
+                    st.extend(succ[x])
+            for fbi, ft in frees:
+                if fbi not in seen:
+                    continue
+                d = set()
+                for a in ft['args'][1:]:
+                    d |= dp.of_operand(a, (fbi, 10 ** 6))
+                old = any(x[0] == 'fn' and x[1].endswith(('L2Entry::allocation', 'L2Entry::cluster_offset', 'L2Entry::compressed_range'))
+                          for x in d)
+                me = short(b.path)
+                rep.ob(rid, '%s: release at %s after awaiting %s' % (me, b.where(fbi), short(it['fn'])), not old,
+                       'releases the old entry\'s allocation again' if old else 'releases something else')
+                if old:
+                    rep.violation(rid, '%s:%s' % (rid, me), b.where(fbi),
+                                  '%s releases the allocation of the entry it replaced (at %s) although the installer %s it awaited before '
+                                  'already hands the displaced allocation to free_clusters: the same host clusters are decremented twice - '
+                                  'a cluster shared by two compressed guest clusters reaches refcount 0 while still referenced' % (
+                                      me, b.where(fbi), short(it['fn'])))
